@@ -263,19 +263,35 @@ class World(object):
 
     def roundtrip(self, which="main"):
         """Clean restart: the conductor is replaced by deserialize(deepcopy(serialize()))."""
+        self.check_durable()
         if which == "twin":
             s = copy.deepcopy(self.twin.serialize())
+            pristine = copy.deepcopy(s)
             self.twin = conducting.WorkflowConductor.deserialize(s)
             s2 = self.twin.serialize()
-            if not jeq(s, s2):
-                self.report("C05", "roundtrip_fixpoint", "deserialize(s).serialize() != s: %s" % first_diff(s, s2))
+            if not jeq(pristine, s2):
+                self.report("C05", "roundtrip_fixpoint", "deserialize(s).serialize() != s: %s" % first_diff(pristine, s2))
         else:
             s = copy.deepcopy(self.c.serialize())
+            pristine = copy.deepcopy(s)
             self.c = conducting.WorkflowConductor.deserialize(s)
             s2 = self.c.serialize()
-            if not jeq(s, s2):
-                self.report("C05", "roundtrip_fixpoint", "deserialize(s).serialize() != s: %s" % first_diff(s, s2))
+            if not jeq(pristine, s2):
+                self.report("C05", "roundtrip_fixpoint", "deserialize(s).serialize() != s: %s" % first_diff(pristine, s2))
+        # the provider keeps the persisted form (its database row); the restored conductor must
+        # not share anything with it, or a later restore from the same row would differ
+        self.durable_form, self.durable_pristine = s, pristine
         self.bump("fault_restart")
+
+    durable_form = None
+    durable_pristine = None
+
+    def check_durable(self):
+        if self.durable_form is not None and not jeq(self.durable_form, self.durable_pristine):
+            d = first_diff(self.durable_pristine, self.durable_form)
+            self.durable_form = None
+            self.report("C05", "persisted_form_untouched", "the persisted form the conductor was restored from changed "
+                        "while the restored conductor went on: %s" % d)
 
     # ------------------------------------------------------------------ ops
     def apply(self, op):
@@ -1176,6 +1192,7 @@ class World(object):
         L = self.ledger
         st = self.status
         self.check_data_fault()
+        self.check_durable()
         if self.error_processed_while_not_canceling and st != "failed" and not (self.cancel_req and st in ("canceled", "canceling")):
             kf, tags = None, []
             self.report("C02", "failure_ends_failed", "an unhandled failure / fail command / runtime error was processed "
